@@ -75,6 +75,9 @@ func c01Run(in []byte, v c01Variant, wantMeasure bool) (sig uint64, ok bool, key
 // through the same entry point.
 var c01Prev []byte
 
+// c01Behind, when set, is what the caller's buffer holds behind the input (within the capacity of the slice).
+var c01Behind []byte
+
 func c01Prime(m *stun.Message, entry int, prev []byte) {
 	data := append([]byte(nil), prev...)
 	switch entry {
@@ -111,6 +114,10 @@ func c01Run1(in []byte, v c01Variant, wantMeasure bool) (sig uint64, ok bool, ke
 		m = new(stun.Message)
 	}
 	data := exactSlice(in, v.Slack)
+	if c01Behind != nil {
+		buf := append(append([]byte(nil), in...), c01Behind...)
+		data = buf[:len(in)] // the input as a prefix of a larger buffer: spare capacity holds more of the message
+	}
 	effective := in
 	var err error
 	var alloc0, alloc1 uint64
@@ -253,6 +260,21 @@ func c01Run1(in []byte, v c01Variant, wantMeasure bool) (sig uint64, ok bool, ke
 	if pos != 20+declared {
 		return 0, false, "views-incomplete", fmt.Sprintf("%s: attributes end at %d, declared body ends at %d: %x", name, pos, 20+declared, clip(in))
 	}
+	// the entry points that copy their input: the caller reuses its slice afterwards (a read buffer), the decoded
+	// message still holds the bytes that were decoded
+	if v.Entry != 1 {
+		for i := range data {
+			data[i] ^= 0xA5
+		}
+		if !bytes.Equal(m.Raw, effective) {
+			return 0, false, "input-aliased", fmt.Sprintf("%s: after the caller overwrote its input slice m.Raw changed with it: the message views the caller's memory: %x", name, clip(in))
+		}
+		for i, a := range m.Attributes {
+			if len(a.Value) > 0 && (uintptr(unsafe.Pointer(unsafe.SliceData(a.Value))) < uintptr(unsafe.Pointer(unsafe.SliceData(m.Raw))) || uintptr(unsafe.Pointer(unsafe.SliceData(a.Value))) >= uintptr(unsafe.Pointer(unsafe.SliceData(m.Raw)))+uintptr(len(m.Raw))) {
+				return 0, false, "input-aliased", fmt.Sprintf("%s: attribute %d does not view m.Raw", name, i)
+			}
+		}
+	}
 	return h.Sum64() | 1, true, "", ""
 }
 
@@ -273,9 +295,10 @@ func c01Variants(wide bool) []c01Variant {
 }
 
 type c01Replay struct {
-	Hex  string     `json:"hex"`
-	Prev string     `json:"prev,omitempty"`
-	V    c01Variant `json:"v"`
+	Hex    string     `json:"hex"`
+	Prev   string     `json:"prev,omitempty"`
+	Behind string     `json:"behind,omitempty"`
+	V      c01Variant `json:"v"`
 	// cross-variant disagreement: second variant
 	V2 *c01Variant `json:"v2,omitempty"`
 }
@@ -286,7 +309,7 @@ func c01Input(c *Ctx, in []byte, vs []c01Variant, wc *watchCase, measure bool) (
 	var refV c01Variant
 	for _, v := range vs {
 		wc.Detail = c01EntryNames[v.Entry] + " does not return"
-		wc.Replay = c01Replay{Hex: hex.EncodeToString(in), Prev: hex.EncodeToString(c01Prev), V: v}
+		wc.Replay = c01Replay{Hex: hex.EncodeToString(in), Prev: hex.EncodeToString(c01Prev), Behind: hex.EncodeToString(c01Behind), V: v}
 		c.Watch(wc)
 		c.Eval(1)
 		sig, ok, key, detail := c01Run(in, v, measure)
@@ -294,7 +317,7 @@ func c01Input(c *Ctx, in []byte, vs []c01Variant, wc *watchCase, measure bool) (
 			c.Res.Extra["sum_alloc_measurements"] = c.Res.Extra["sum_alloc_measurements"].(float64) + 1
 		}
 		if key != "" {
-			c.Violation(key, detail, c01Replay{Hex: hex.EncodeToString(in), Prev: hex.EncodeToString(c01Prev), V: v})
+			c.Violation(key, detail, c01Replay{Hex: hex.EncodeToString(in), Prev: hex.EncodeToString(c01Prev), Behind: hex.EncodeToString(c01Behind), V: v})
 			return false
 		}
 		if v.Trunc {
@@ -364,6 +387,17 @@ func init() {
 				prefixFn(in, seq)
 				c01Prev = nil
 			})
+			sweepFullAfterPrefix(c, func(in *decodeInput, seq int64) {
+				c01Prev = in.Prev
+				prefixFn(in, seq)
+				c01Prev = nil
+			})
+			roomy := mk(wide, "roomy")
+			sweepPrefixInRoomySlice(c, func(in *decodeInput, seq int64) {
+				c01Behind = append([]byte{}, in.Bytes[len(in.Bytes):cap(in.Bytes)]...)
+				roomy(in, seq)
+				c01Behind = nil
+			})
 			c.Watch(nil)
 			if c.Expired() {
 				c.Res.Exhaustive = false
@@ -384,6 +418,9 @@ func init() {
 			b, _ := hex.DecodeString(r.Hex)
 			if r.Prev != "" {
 				c01Prev, _ = hex.DecodeString(r.Prev)
+			}
+			if r.Behind != "" {
+				c01Behind, _ = hex.DecodeString(r.Behind)
 			}
 			vs := []c01Variant{r.V}
 			if r.V2 != nil {
